@@ -3,7 +3,7 @@
     used by a theorem; the theorems talk about [deriv] (LModel.v), which [rhs_exec] calls. *)
 From Coq Require Import List ZArith NArith Bool Arith QArith.
 From MxlBase Require Import ListX.
-From Label Require Import LModel Iso Linear.
+From Label Require Import LModel Iso IsoSession Linear.
 Import ListNotations.
 
 Definition lnames_eqb := list_eqb lname_eqb.
@@ -86,6 +86,19 @@ Definition check_iso (ext_bit : bool) (rk : repl_kind) (ik : init_name_kind) (c 
      | Ok m => forallb (fun sr => optQs_eqb (rhs_exec inject_Z m (fst sr)) (snd sr)) (ic_rhs c)
      | Err _ => true
      end.
+
+(** one HISTORY of build_model calls on ONE LabelMapper object: the mapper's fields, the `initial_labels` of the calls in
+    order, what every call of /repo returned, and the mapper's `label_maps` dict after the last call *)
+Record sess_case := mkSessCase {
+  sc_lv : label_vars; sc_maps : label_maps; sc_inits : list init_labels; sc_base : bmodel;
+  sc_built : list (result (lmodel Z));
+  sc_maps_after : label_maps
+}.
+Definition maps_eqb (a b : label_maps) : bool :=
+  list_eqb (fun x y => N.eqb (fst x) (fst y) && list_eqb Z.eqb (snd x) (snd y)) a b.
+Definition check_sess (mm : maps_mode) (ext_bit : bool) (rk : repl_kind) (ik : init_name_kind) (c : sess_case) : bool :=
+  let '(mine, after) := session mm ext_bit rk ik (sc_lv c) (sc_maps c) (sc_base c) (sc_inits c) in
+  list_eqb (result_eqb (lmodel_eqb Z.eqb)) mine (sc_built c) && maps_eqb after (sc_maps_after c).
 
 Record lin_case := mkLinCase {
   lc_lv : label_vars; lc_maps : label_maps; lc_init : option init_labels;
